@@ -178,7 +178,6 @@ package route
 //@   requires usableSchemas(schemas)
 //@   let line := btrim(buf[..])
 //@   let f0   := field(line, 0)
-//@   modifies *
 //@   ensures[three_fields; C16] nfields(line) != 3 ==> err != nil
 //@   ensures[datapoint; C16] err == nil ==> md != nil && md.Name == eatDots(bpart(f0, ";", 0)) && md.Value == parseFloat(field(line, 1)) && md.Time == parseUint(field(line, 2)) && md.OrgId == orgId
 //@   ensures[tags_sorted; C16] err == nil ==> len(md.Tags) == bcount(f0, ";") && (forall i int, j int :: 0 <= i && i <= j && j < len(md.Tags) ==> bleq(md.Tags[i], md.Tags[j]))
@@ -199,3 +198,67 @@ package route
 //@   loop 2:
 //@     invariant[idx2] 0 <= #i && #i <= len(#s)
 //@     invariant[nonzero_so_far] forall r int :: 0 <= r && r < #i ==> #s[r] != nil && #s[r].secondsPerPoint != 0
+
+// ---------------------------------------------------------------- grafananet.go: workers, retry, shutdown (C17)
+//@ spec gnWf(route *GrafanaNet) bool := route.client != nil && route.wg != nil && route.shutdown != nil && route.numErrFlush != nil && route.numOut != nil && route.numBuffered != nil
+//@      && route.durationTickFlush != nil && route.tickFlushSize != nil && usableSchemas(route.schemas)
+//@ spec acked(route *GrafanaNet) bool := !route.client.lastFailed && 200 <= route.client.lastStatus && route.client.lastStatus < 300
+//@
+//@ // flush: one POST; nil is returned exactly when the endpoint acknowledged it with a 2xx status
+//@ func (route *GrafanaNet) flush(mda schema.MetricDataArray, req *http.Request) (dur time.Duration, err error)
+//@   property C17
+//@   nosafety "the log message about rejected points indexes the batch with ids taken from the endpoint's response"
+//@   requires route.client != nil
+//@   modifies route.client.lastStatus, route.client.lastFailed, route.client.posts
+//@   ensures[one_post; C17] route.client.posts == old(route.client.posts) ++ argsOf(req) && route.client == old(route.client)
+//@   ensures[nil_iff_acknowledged; C17] (err == nil) == acked(route)
+//@   loop 1:
+//@     invariant[kept] route.client == old(route.client) && route.client.posts == old(route.client.posts) ++ argsOf(req) && !route.client.lastFailed && resp != nil && resp.StatusCode == route.client.lastStatus
+//@   loop 2:
+//@     invariant[kept2] route.client == old(route.client) && route.client.posts == old(route.client.posts) ++ argsOf(req) && !route.client.lastFailed && resp != nil && resp.StatusCode == route.client.lastStatus
+//@
+//@ // retryFlush: a non-empty batch is posted again and again until it is acknowledged; it is never given up on
+//@ func (route *GrafanaNet) retryFlush(metrics []*schema.MetricData, buffer *bytes.Buffer) (r []*schema.MetricData)
+//@   property C17
+//@   nosafety "panics only if msgp encoding of the batch or http.NewRequest with a constant method fails (library contracts)"
+//@   requires gnWf(route) && buffer != nil
+//@   modifies route.client.lastStatus, route.client.lastFailed, route.client.posts, allof("ghost:metrics.Counter.count"), allof("ghost:io.Writer.stream")
+//@   ensures[empty_batch_no_post; C17] len(metrics) == 0 ==> r == metrics && route.client.posts == old(route.client.posts) && route.client.lastStatus == old(route.client.lastStatus) && route.client.lastFailed == old(route.client.lastFailed)
+//@   ensures[retried_until_acknowledged; C17] len(metrics) > 0 ==> acked(route) && llen(route.client.posts) > llen(old(route.client.posts))
+//@   ensures[batch_reset] len(r) == 0 && gnWf(route) && route.wg.n == old(route.wg.n)
+//@   loop 1:
+//@     invariant[wf] gnWf(route) && route.wg.n == old(route.wg.n) && route.client == old(route.client) && len(metrics) > 0 && llen(route.client.posts) >= llen(old(route.client.posts))
+//@
+//@ // run: one worker per shard. It returns only on shutdown, after taking everything still buffered for its shard,
+//@ // flushing it, and reporting completion to the WaitGroup Shutdown waits on.
+//@ func (route *GrafanaNet) run(in chan []byte)
+//@   property C17
+//@   requires gnWf(route) && in != nil
+//@   modifies *
+//@   ensures[reports_completion; C17] route.wg.n == old(route.wg.n) - 1
+//@   ensures[buffer_drained_before_return; C17] drained(in)
+//@   ensures[last_batch_acknowledged; C17] acked(route) || route.client.posts == old(route.client.posts)
+//@   loop 1:
+//@     invariant[wf] gnWf(route) && route.wg == old(route.wg) && route.wg.n == old(route.wg.n) && buffer != nil && timer != nil && timer.C != nil && route.client == old(route.client)
+//@     invariant[nothing_unacknowledged_behind] acked(route) || route.client.posts == old(route.client.posts)
+//@     assumed_invariant[channel_ownership] !closed(in)
+//@   loop 2:
+//@     invariant[wf_draining] gnWf(route) && route.wg == old(route.wg) && route.wg.n == old(route.wg.n) && buffer != nil && route.client == old(route.client)
+//@     invariant[nothing_unacknowledged_behind_draining] acked(route) || route.client.posts == old(route.client.posts)
+//@     invariant[stops_only_when_empty] !draining ==> drained(in)
+//@     assumed_invariant[channel_ownership] !closed(in)
+//@   // a line taken from the shard's buffer is appended to the pending batch (order of arrival kept) or, if it cannot
+//@   // be represented, skipped; a full batch is only dropped from the pending list once it was acknowledged
+//@   branch "<-in":
+//@     ensures[order_kept; C17] (len(metrics) == old(len(metrics)) && (forall j int :: 0 <= j && j < len(metrics) ==> metrics[j] == old(metrics[j])))
+//@        || (len(metrics) == old(len(metrics)) + 1 && (forall j int :: 0 <= j && j < old(len(metrics)) ==> metrics[j] == old(metrics[j])))
+//@        || (len(metrics) == 0 && acked(route) && llen(route.client.posts) > llen(old(route.client.posts)))
+//@   branch "<-timer.C":
+//@     ensures[tick_flushes; C17] len(metrics) == 0 && (old(len(metrics)) > 0 ==> acked(route) && llen(route.client.posts) > llen(old(route.client.posts)))
+//@
+//@ // Shutdown: every worker is told to stop (not just one of them), and the call returns only after waiting for all of them
+//@ func (route *GrafanaNet) Shutdown() error
+//@   property C17
+//@   requires route.shutdown != nil && route.wg != nil && !closed(route.shutdown)
+//@   modifies *
+//@   ensures[all_workers_signalled; C17] closed(route.shutdown) || llen(sent(route.shutdown)) == llen(old(sent(route.shutdown))) + route.Cfg.Concurrency
